@@ -15,11 +15,15 @@
 (*     container the harness built (ctx event, Layout.tla View), or the     *)
 (*     volume a body read goes through is not one the disc's tables define. *)
 (* Rejected events are collected (the run is never blocked) and the state   *)
-(* resynchronises on the rejected event.                                    *)
+(* resynchronises on the rejected event.  An event of a *kind* the spec     *)
+(* does not expect at this layer (the layering of the code changed: a       *)
+(* cache removed, a layer added) is not a rejection but model drift: it is  *)
+(* counted separately and reported as information, because no property      *)
+(* fixes the number of layers; what each layer computes is still judged.    *)
 (***************************************************************************)
 EXTENDS ReadStack, IOUtils, Integers, Json
 TraceLog == ndJsonDeserialize(IOEnv.TRACE)
-VARIABLES l, bad,
+VARIABLES l, bad, drift,
           ctx,        \* what the harness knows about the image of this run: [kind, cyl, spt, vols]  (kind "none": no container
                       \* layout known; vols: the <<origin, length>> of the volumes the documented on-disc tables define, <<>>: unknown)
           filled,     \* <<dev, sector>> -> sum of the data put into the cache
@@ -27,14 +31,21 @@ VARIABLES l, bad,
           lastSum,    \* sum of the data the bottom layer returned last (-1: it failed)
           content     \* <<group, drive, sector>> -> sum: what the bottom layer delivered for a sector of a surface the harness
                       \* presents in several containers (ctx.group; C05: flux image and sector dump of the same surface)
-tvars == <<vars, l, bad, ctx, filled, pend, lastSum, content>>
+tvars == <<vars, l, bad, drift, ctx, filled, pend, lastSum, content>>
 Ev == TraceLog[l]
 
-Expected(ev) == CASE layer = "vol" -> ev.e = "volread" /\ ev.lba = cur
-                  [] layer = "cache" -> ev.e = "cread" /\ ev.sector = cur
-                  [] layer = "dev" -> (ev.e = "vread" /\ ev.sector = cur) \/ (ev.e = "fread" /\ ev.lba = cur)
-                  [] layer = "blk" -> ev.e = "blk" /\ ev.lba = cur
-                  [] OTHER -> TRUE                                   \* idle: any layer may be entered from outside
+\* is this the kind of event the layer below the current one emits?
+KindExpected(ev) == CASE layer = "vol" -> ev.e = "volread"
+                      [] layer = "cache" -> ev.e = "cread"
+                      [] layer = "dev" -> ev.e \in {"vread", "fread"}
+                      [] layer = "blk" -> ev.e = "blk"
+                      [] OTHER -> TRUE                               \* idle: any layer may be entered from outside
+\* ... and does it carry the sector number the layer above passed down?
+Expected(ev) == CASE layer = "vol" -> ev.lba = cur
+                  [] layer = "cache" -> ev.sector = cur
+                  [] layer = "dev" -> IF ev.e = "vread" THEN ev.sector = cur ELSE ev.lba = cur
+                  [] layer = "blk" -> ev.lba = cur
+                  [] OTHER -> TRUE
 ViewOf(ev) == [skip |-> ev.skip, take |-> ev.take, leave |-> ev.leave, total |-> ev.total]
 KnownViews == IF ctx.kind = "mmb" THEN {View("mmb", 80, 10, h) : h \in 0..510}
               ELSE {View(ctx.kind, ctx.cyl, ctx.spt, h) : h \in (IF ctx.kind = "plain1" THEN {0} ELSE {0, 1})}
@@ -68,12 +79,14 @@ InsideNow == (top.kind = "body" /\ layer \in {"cache", "dev"}) =>
                 (cur >= vol.origin /\ cur < vol.origin + vol.len /\ RInFile(file, cur - vol.origin))
 TInit == /\ v = [skip |-> 0, take |-> 0, leave |-> 0, total |-> 0] /\ flen = 0 /\ vol = [origin |-> 0, len |-> 0] /\ file = [start |-> 0, last |-> 0]
          /\ cache = <<>> /\ layer = "idle" /\ cur = 0 /\ top = NoTop /\ res = [ok |-> FALSE, pos |-> FAIL]
-         /\ l = 1 /\ bad = {} /\ ctx = [kind |-> "none", cyl |-> 0, spt |-> 0, vols |-> <<>>, group |-> ""] /\ content = <<>> /\ filled = <<>> /\ pend = <<>> /\ lastSum = 0 - 1
+         /\ l = 1 /\ bad = {} /\ drift = {} /\ ctx = [kind |-> "none", cyl |-> 0, spt |-> 0, vols |-> <<>>, group |-> ""] /\ content = <<>> /\ filled = <<>> /\ pend = <<>> /\ lastSum = 0 - 1
 TNext == /\ l <= Len(TraceLog) /\ l' = l + 1
          /\ LET ev == Ev
-                ok == (ev.e \in {"ctx", "cfill"} \/ Expected(ev)) /\ FieldsOK(ev) /\ InsideNow
+                known == ev.e \in {"ctx", "cfill"} \/ KindExpected(ev)
+                ok == (ev.e \in {"ctx", "cfill"} \/ ~KindExpected(ev) \/ Expected(ev)) /\ FieldsOK(ev) /\ (known => InsideNow)
                 n == After(ev) IN
             /\ bad' = IF ok THEN bad ELSE bad \cup {l}
+            /\ drift' = IF known THEN drift ELSE drift \cup {l}
             /\ IF ev.e = "cfill" THEN UNCHANGED <<layer, cur>> ELSE (layer' = n.layer /\ cur' = n.cur)
             /\ ctx' = IF ev.e = "ctx" THEN [kind |-> ev.kind, cyl |-> ev.cyl, spt |-> ev.spt, vols |-> ev.vols, group |-> ev.group] ELSE ctx
             /\ filled' = IF ev.e = "ctx" THEN <<>>
@@ -91,6 +104,6 @@ TNext == /\ l <= Len(TraceLog) /\ l' = l + 1
             /\ top' = IF ev.e = "body" THEN [kind |-> "body", sec |-> ev.sec] ELSE IF layer = "idle" THEN NoTop ELSE top
          /\ UNCHANGED <<flen, cache, res>>
 TSpec == TInit /\ [][TNext]_tvars
-Final == (l = Len(TraceLog) + 1) => PrintT(<<"VERDICT", ToJson([bad |-> bad, n |-> Len(TraceLog)])>>)
+Final == (l = Len(TraceLog) + 1) => PrintT(<<"VERDICT", ToJson([bad |-> bad, drift |-> drift, n |-> Len(TraceLog)])>>)
 Accepted == TLCGet("stats").diameter - 1 = Len(TraceLog)
 =============================================================================
